@@ -181,6 +181,10 @@ func TestVerifFaults(t *testing.T) {
 				if big {
 					stride = in.Stride * 97
 				}
+				if hop < hops {
+					/* a redirect is short and every byte of its Location line matters: all offsets */
+					stride = 1
+				}
 				for _, kind := range []string{"cut", "reset"} {
 					for at := 0; at <= len(raw); at++ {
 						boundary := at < 3 || at > len(raw)-4 || raw[minI(at, len(raw)-1)] == '\n' || raw[minI(at, len(raw)-1)] == '{'
